@@ -81,6 +81,15 @@ def generate(rng, tier):
         yield {"fam": "nested", "vals": base, "i": rng.randrange(n), "new": rng.choice([5, 7, "b", None, 2.5]),
                "other": [rng.choice([7, 8]) for _ in range(n)], "path": rng.choice(["view", "cell", "none"])}
     # container-valued elements: lists / tuples (nested) and sets of scalars inside an object vector
+    # an empty container against the small numbers (an empty container hashes to its bare starting value)
+    for empty in ({"t": []}, {"l": []}, {"s": []}):
+        for x in (0, 1, 2, 3, 4, 5, 6, True, 1.0, 3.0, -1):
+            yield {"fam": "container", "elems": ["k", empty], "i": 1, "new": x}
+            yield {"fam": "container", "elems": ["k", x], "i": 1, "new": empty}
+    # sets whose members are only partially ordered (frozensets: `<` is the subset relation, so sorting the members is not canonical)
+    for rep in range(12 if tier == "quick" else 200):
+        members = rng.sample(range(200), rng.randint(2, 30))
+        yield {"fam": "container", "elems": ["k", {"sf": members}], "i": 1, "new": {"sf": members[1:] + [rng.randrange(200, 260)]}}
     for _ in range(400 if tier == "quick" else 8000):
         n = rng.randint(1, 4)
         elems = ["k"] + [_rand_tree(rng, 2) for _ in range(n)]
@@ -122,6 +131,8 @@ def _mutate_tree(rng, t):
     (k, items), = t.items()
     items = list(items)
     r = rng.random()
+    if rng.random() < 0.08:
+        return rng.choice([0, 1, 2, 3, 4, 6, True, None, "a"])        # the container replaced by a plain value
     if k == "s":
         pool = [x for x in [0, 8, 16, 1, 2, 3, 24, -1, 40] if x not in items]
         if r < 0.5 or not items:
@@ -152,6 +163,11 @@ def _build_tree(t, rev=False):
         for x in (items[::-1] if rev else items):
             out.add(x)
         return out
+    if k == "sf":
+        out = set()
+        for x in (items[::-1] if rev else items):
+            out.add(frozenset({x}))
+        return out
     xs = [_build_tree(x, rev) for x in items]
     return xs if k == "l" else tuple(xs)
 
@@ -161,7 +177,10 @@ def _wire_tree(t):
         return hashes([t])[0]
     (k, items), = t.items()
     if k == "s":
-        return {"k": 1, "e": [hashes([x])[0] for x in sorted(set(items))]}
+        # a set folds its item hashes in ascending order (members that are == count once)
+        return {"k": 1, "e": sorted(hashes([x])[0] for x in set(items))}
+    if k == "sf":
+        return {"k": 1, "e": sorted(hash(frozenset({x})) for x in set(items))}
     return {"k": 2 if k == "t" else 3, "e": [_wire_tree(x) for x in items]}
 
 
@@ -191,7 +210,7 @@ def _container(spec):
         if not isinstance(t, dict):
             return False
         (k, items), = t.items()
-        return (k == "s" and len(set(items)) >= 2) or (k != "s" and any(big_set(x) for x in items))
+        return (k in ("s", "sf") and len(set(items)) >= 2) or (k not in ("s", "sf") and any(big_set(x) for x in items))
     return {"fam": "container", "case": {"elems": [_wire_tree(t) for t in elems], "elems2": [_wire_tree(t) for t in elems2],
                                          "exact": not any(big_set(t) for t in elems + elems2)},
             "impl": {"v_before": vb, "v_again": again, "v_twin": tw, "v_after": va, "v_rebuilt": rebuilt}}
